@@ -13,7 +13,7 @@ def getF {α : Type} [FromJson α] (j : Json) (k : String) : Except String α :=
   | .ok v => (fromJson? v).mapError (fun e => s!"field {k}: {e}")
   | .error e => .error s!"field {k}: {e}"
 
-def parseOp (j : Json) : Except String Op := do
+def parseOp1 (j : Json) : Except String Op := do
   let k : String ← getF j "k"
   match k with
   | "advance" => pure (.advance (← getF j "to") (← getF j "seed"))
@@ -48,6 +48,13 @@ def parseOp (j : Json) : Except String Op := do
   | "restart" => pure .restart
   | "genesis" => pure .genesis
   | other => pure (.unmodelled other)
+
+def parseOp (j : Json) : Except String Op := do
+  let k : String ← getF j "k"
+  if k = "sim" then
+    let inner ← j.getObjVal? "inner"
+    pure (.sim (← parseOp1 inner))
+  else parseOp1 j
 
 def parseRes (s : String) : Res :=
   match s with
